@@ -737,5 +737,26 @@ def fill_once_per_row(args):
     return False, "the Fill of every probe query is a statement of the per-event block"
 
 
+@driver
+def nested_math_functions(args):
+    """documented math functions are usable inside larger arithmetic and inside each other: every call site, at any depth, is mapped to its std:: namesake."""
+    for expr, wants in [("sqrt(pow(j.pt(), 2) + pow(j.eta(), 2))", ["std::sqrt(", "std::pow("]), ("abs(sin(j.pt()))", ["std::abs(", "std::sin("]),
+                        ("exp(0 - fabs(j.eta()))", ["std::exp(", "std::fabs("]), ("sin(j.pt()) + cos(j.eta()) * 2", ["std::sin(", "std::cos("]),
+                        ("j.pt() * tanh(log(j.pt()))", ["std::tanh(", "std::log("])]:
+        try:
+            q = _dataset().SelectMany("lambda e: e.Jets('A')").Select("lambda j: " + expr)
+        except Exception:
+            continue  # func_adl itself could not build the query: nothing of this repository is involved
+        try:
+            info, files = translate(q)
+        except Exception as e:
+            return True, "`%s` is refused: %s: %s" % (expr, type(e).__name__, str(e)[:120])
+        text = files["query.cxx"]
+        miss = [w for w in wants if w not in text]
+        if miss or "cmath" not in text:
+            return True, "`%s`: the generated code lacks %s" % (expr, ", ".join(miss) or "the <cmath> header")
+    return False, "nested math functions are mapped at every depth"
+
+
 if __name__ == "__main__":
     main()
